@@ -139,8 +139,8 @@ def run_config(chk, facts, cfg):
         for r in facts.records("cgnode", c):
             if r.get("targs"):
                 fn = r["path"].split("::")[-1]
-                if fn == "alloc_slice":
-                    continue  # handles alignment itself (C02-e)
+                if fn == "alloc_slice" or "outline::glyf::memory::" in r["path"]:
+                    continue  # skrifa's scratch-memory carver handles alignment itself (C02-e)
                 for ty, sz, al in r["targs"]:
                     seen.setdefault((fn, ty), (sz, al))
     for (fn, ty), (sz, al) in sorted(seen.items()):
